@@ -8,8 +8,105 @@ Ltac go2 A B :=
   destruct A as [| |l1 h1], B as [| |l2 h2]; cbn [mem wf] in *; try contradiction;
   open_range; rewrite ?wrap256_unsigned; consts; exec; getreps; subst.
 
+Ltac fixreps :=
+  repeat match goal with
+  | H : ?x <= ?v <= ?x |- _ => is_var v; assert (v = x) by lia; subst v
+  end.
+Lemma to_signed_mod v : - HALF <= v < HALF -> to_signed (v mod W) = v.
+Proof.
+  intros H. unfold to_signed. destruct (v mod W <? HALF) eqn:E; b2p; mlia.
+Qed.
+
+Ltac wordwit := post_if; b2p;
+  lazymatch goal with |- (exists v, _ <= v <= _ /\ v mod W = ?w) /\ _ => sw w end.
+
 Theorem eval_mod_sound : sound2 eval_mod w_mod.
 Proof.
   intros A B a b WA WB MA MB; unfold eval_mod; go2 A B; unfold w_mod.
+  all: assert (v0 = h2) by lia; subst v0.
+  all: wordwit.
+Qed.
+
+Theorem eval_div_sound : sound2 eval_div w_div.
+Proof.
+  intros A B a b WA WB MA MB; unfold eval_div; go2 A B; unfold w_div.
+  all: assert (v0 = h2) by lia; subst v0.
+  all: try (assert (D: 0 < h2 mod W) by mlia).
+  all: try (assert (v1 mod W = v1) as -> by mlia).
+  all: try (pose proof (Z.div_le_mono l1 v1 (h2 mod W) D ltac:(lia));
+            pose proof (Z.div_le_mono v1 h1 (h2 mod W) D ltac:(lia));
+            pose proof (Z.div_pos l1 (h2 mod W) ltac:(lia) D);
+            assert (h1 / (h2 mod W) <= h1) by (apply Z.div_le_upper_bound; nia)).
+  all: try (exfalso; lia).
+  all: post_if; b2p; try lia.
+  - sw 0.
+  - sw 0.
+  - split; [exists (v1 / (h2 mod W)); split; [lia|] | wl]. apply Z.mod_small. wl.
+Qed.
+
+Theorem eval_shr_sound : sound2 eval_shr w_shr.
+Proof.
+  intros A B a b WA WB MA MB; unfold eval_shr; go2 A B; unfold w_shr; fixreps.
+  all: assert (S0: 0 <= h1 mod W) by mlia.
+  all: rewrite ?Z.shiftl_mul_pow2, ?Z.mul_1_l in * by exact S0.
+  all: assert (P: 0 < 2 ^ (h1 mod W)) by (apply Z.pow_pos_nonneg; lia).
+  all: try (exfalso; lia).
+  all: post_if; b2p; try lia.
+  - sw 0.
+  - sw 0.
+  - exfalso. pose proof (Z.div_le_mono l2 h2 _ P ltac:(lia)). lia.
+  - assert (v0 mod W = v0) as -> by mlia.
+    pose proof (Z.div_le_mono l2 v0 _ P ltac:(lia)). pose proof (Z.div_le_mono v0 h2 _ P ltac:(lia)).
+    pose proof (Z.div_pos l2 _ ltac:(lia) P).
+    assert (h2 / 2 ^ (h1 mod W) <= h2) by (apply Z.div_le_upper_bound; nia).
+    split; [exists (v0 / 2 ^ (h1 mod W)); split; [lia|] | wl]. apply Z.mod_small. wl.
+Qed.
+
+Theorem eval_shl_sound : sound2 eval_shl w_shl.
+Proof.
+  intros A B a b WA WB MA MB; unfold eval_shl; go2 A B; unfold w_shl; fixreps.
+  all: assert (S0: 0 <= h1 mod W) by mlia.
+  all: assert (P: 0 < 2 ^ (h1 mod W)) by (apply Z.pow_pos_nonneg; lia).
+  1-2: post_if; b2p; try lia; sw 0.
+  rewrite ?Z.shiftl_mul_pow2 in * by exact S0.
+  rewrite rshift_fast_spec, Z.shiftr_div_pow2 in * by exact S0.
+  assert (h1 mod W <? 256 = true) as -> by (apply Z.ltb_lt; lia).
+  assert (v0 mod W = v0) as -> by mlia.
+  set (p := 2 ^ (h1 mod W)) in *.
+  assert (Hh: h2 * p <= W - 1).
+  { assert (h2 * p <= ((W - 1) / p) * p) by nia. pose proof (Z.mul_div_le (W - 1) p P). lia. }
+  assert (l2 * p <= v0 * p <= h2 * p) by nia.
+  assert (0 <= l2 * p) by nia.
+  rewrite !Z.mod_small in * by lia.
+  unfold to_signed in *.
+  destruct (l2 * p <? HALF) eqn:A1, (h2 * p <? HALF) eqn:A2; b2p; try (exfalso; wl).
+  - sw (v0 * p).
+  - sw (v0 * p - W).
+Qed.
+
+Theorem eval_sar_sound : sound2 eval_sar w_sar.
+Proof.
+  intros A B a b WA WB MA MB; unfold eval_sar; go2 A B; unfold w_sar, of_signed, MAXU; fixreps.
+  all: assert (S0: 0 <= h1 mod W) by mlia.
+  all: assert (P: 0 < 2 ^ (h1 mod W)) by (apply Z.pow_pos_nonneg; lia).
+  all: rewrite ?rshift_fast_spec, ?Z.shiftr_div_pow2 in * by exact S0.
+  all: try rewrite (to_signed_mod v0) by wl.
+  all: try (pose proof (Z.div_le_mono l2 v0 _ P ltac:(lia)); pose proof (Z.div_le_mono v0 h2 _ P ltac:(lia))).
+  all: try (exfalso; lia).
+  all: post_if; b2p; try lia.
+  - sw 0.
+  - sw (-1).
+  - sw (-1).
+  - sw 0.
+  - assert (- HALF <= l2 / 2 ^ (h1 mod W)) by (apply Z.div_le_lower_bound; nia).
+    assert (h2 / 2 ^ (h1 mod W) <= HALF - 1).
+    { destruct (Z_le_dec 0 h2); [apply Z.le_trans with h2; [apply Z.div_le_upper_bound; nia | lia]|].
+      assert (h2 / 2 ^ (h1 mod W) < 0) by (apply Z.div_lt_upper_bound; lia). wl. }
+    split; [exists (v0 / 2 ^ (h1 mod W)); split; [lia | reflexivity] | wl].
+Qed.
+
+Theorem eval_smod_sound : sound2 eval_smod w_smod.
+Proof.
+  intros A B a b WA WB MA MB; unfold eval_smod; go2 A B; unfold w_smod, of_signed; fixreps.
   Show.
 Abort.
